@@ -31,7 +31,7 @@ DenList(fmt, f) == LET d == Denote(fmt, f)
                        S == {bk \in BlockKey : d[bk] # Unset}
                    IN {[b |-> bk[1], k |-> bk[2], v |-> d[bk]] : bk \in S}
 
-Case(fmt, f) == [fmt |-> fmt, file |-> f, err |-> DenoteErr(fmt, f),
+Case(fmt, f) == [fmt |-> fmt, file |-> f, err |-> DenoteErr(fmt, f), errLate |-> DenoteErrLate(fmt, f),
                  den |-> IF DenoteErr(fmt, f) = "none" THEN DenList(fmt, f) ELSE {}]
 
 Files == AllUpTo(Exh) \cup RandFiles
